@@ -667,8 +667,8 @@ func (e *Engine) mergeableResult(a, b Value) bool {
 			}
 		}
 	case MapV:
-		y, ok := b.(MapV)
-		return ok && (x.obj == y.obj || x.obj == 0 || y.obj == 0)
+		_, ok := b.(MapV)
+		return ok
 	case ChanV:
 		y, ok := b.(ChanV)
 		return ok && x == y
